@@ -19,10 +19,10 @@ ASSUMPTIONS = ["tolerance 1e-6 relative, 5e-3 where the speed vanishes inside th
                "arc lengths are bracketed for the curve given by the library's stored centre parameters (C04 owns those)",
                "no-scipy configuration is run on fewer cases and mostly at scales <= 1e2 (the fallback needs seconds per call at 1e6)"]
 CONFIGS = ['scipy', 'noscipy']
-BUDGET = {'quick': {'scipy': 6000, 'noscipy': 480}, 'thorough': {'scipy': 150000, 'noscipy': 20000}}
+BUDGET = {'quick': {'scipy': 6000, 'noscipy': 480}, 'thorough': {'scipy': 150000, 'noscipy': 6000}}
 REQUIRED = ['kind:Q', 'kind:C', 'kind:A', 'kind:L', 'class:collinear', 'class:foldback', 'speed_zero_in_interval', 'path']
 CASE_TIMEOUT = 120
-TIME_LIMIT = {'quick': 280, 'thorough': 3300}
+TIME_LIMIT = {'quick': 280, 'thorough': 2400}
 
 EPS = 2.0 ** -52
 GL_X, GL_W = np.polynomial.legendre.leggauss(20)
